@@ -97,7 +97,7 @@ func randInt(f, t int64) (string, error) {
 		t = defaultMaxRandValue
 	}
 	if t == f {
-		f = t + defaultMaxRandValue
+		t = f + defaultMaxRandValue
 	}
 	n := rand.Int63n(t - f)
 	n += f
@@ -124,6 +124,9 @@ func randString(cnt any, letters string) (string, error) {
 	}
 	if n == 0 {
 		n = 1
+	}
+	if n < 0 {
+		return "", fmt.Errorf("randString length should not be negative, but got %d", n)
 	}
 	return str.RandStringRunes(n, letters), nil
 }
